@@ -20,7 +20,7 @@ import logging
 from abc import ABC, abstractmethod
 from functools import singledispatchmethod
 from pathlib import Path
-from typing import Dict, List
+from typing import Dict, List, Optional
 
 from nemoguardrails.rails.llm.config import EmbeddingsCacheConfig
 
@@ -201,23 +201,36 @@ class EmbeddingsCache:
         key_generator: KeyGenerator = None,
         cache_store: CacheStore = None,
         store_config: dict = None,
+        namespace: str = None,
     ):
         self._key_generator = key_generator
         self._cache_store = cache_store
         self._store_config = store_config or {}
+        # The identity of the embedding model the cached vectors belong to. It is part of
+        # every key, so that indexes using different models can share a store safely.
+        self._namespace = namespace
 
     @classmethod
-    def from_dict(cls, d: Dict[str, str]):
+    def from_dict(cls, d: Dict[str, str], namespace: str = None):
         key_generator = KeyGenerator.from_name(d.get("key_generator"))()
         store_config = d.get("store_config")
         cache_store = CacheStore.from_name(d.get("store"))(**store_config)
 
-        return cls(key_generator=key_generator, cache_store=cache_store)
+        return cls(
+            key_generator=key_generator, cache_store=cache_store, namespace=namespace
+        )
 
     @classmethod
-    def from_config(cls, config: EmbeddingsCacheConfig):
+    def from_config(cls, config: EmbeddingsCacheConfig, namespace: str = None):
         # config is of type EmbeddingSearchProvider
-        return cls.from_dict(config.to_dict())
+        return cls.from_dict(config.to_dict(), namespace=namespace)
+
+    def _generate_key(self, text: str) -> str:
+        """Generate the key for a text, scoped to the namespace (the embedding model)."""
+        if self._namespace:
+            # The length prefix keeps (namespace, text) -> str injective.
+            text = f"{len(self._namespace)}:{self._namespace}:{text}"
+        return self._key_generator.generate_key(text)
 
     def get_config(self):
         return EmbeddingsCacheConfig(
@@ -232,7 +245,7 @@ class EmbeddingsCache:
 
     @get.register
     def _(self, text: str):
-        key = self._key_generator.generate_key(text)
+        key = self._generate_key(text)
         log.info(f"Fetching key {key} for text '{text[:20]}...' from cache")
 
         result = self._cache_store.get(key)
@@ -259,7 +272,7 @@ class EmbeddingsCache:
 
     @set.register
     def _(self, text: str, value: List[float]):
-        key = self._key_generator.generate_key(text)
+        key = self._generate_key(text)
         log.info(f"Cache miss for text '{text}'. Storing key {key} in cache.")
         self._cache_store.set(key, value)
 
@@ -270,6 +283,19 @@ class EmbeddingsCache:
 
     def clear(self):
         self._cache_store.clear()
+
+
+def _embedding_model_namespace(obj) -> Optional[str]:
+    """The identity of the embedding model used by `obj` (engine and model name), if it has one.
+
+    Embeddings computed by different models must never be served for one another, even when
+    the caches of the indexes point to the same store (e.g. the default cache folder).
+    """
+    engine = getattr(obj, "embedding_engine", None)
+    model = getattr(obj, "embedding_model", None)
+    if engine is None and model is None:
+        return None
+    return json.dumps([engine, model])
 
 
 def cache_embeddings(func):
@@ -306,7 +332,9 @@ def cache_embeddings(func):
             # if cache is not enabled compute embeddings for the whole input
             return await func(self, texts)
 
-        embeddings_cache = EmbeddingsCache.from_config(self.cache_config)
+        embeddings_cache = EmbeddingsCache.from_config(
+            self.cache_config, namespace=_embedding_model_namespace(self)
+        )
 
         cached_texts = {}
         uncached_texts = []
